@@ -38,6 +38,7 @@ KF_TAG258 = "KF-C03-tag258-list-fields"
 KF_CHUNK = "KF-C03-inline-datum-chunked"
 KF_EMPTYLIST = "KF-C03-datum-empty-list"
 KF_CEXT = "KF-C03-cext-backend"
+KF_DEFLIST = "KF-C03-inline-datum-definite-list"
 
 WORKER = os.path.join(os.path.dirname(os.path.dirname(os.path.abspath(__file__))), "workers", "c03_worker.py")
 
@@ -85,6 +86,12 @@ def with_inline_datums(tx, f):
     return tx
 
 
+def with_lists(wire, mode):
+    w = copy.deepcopy(wire)
+    w.plutus_lists = mode
+    return w
+
+
 def with_set(wire, site, tagged):
     w = copy.deepcopy(wire)
     w.sets[site] = tagged
@@ -100,6 +107,10 @@ TRAITS = [
     ("inline datum holding a byte string over 64 bytes (chunked on the wire)", KF_CHUNK,
      lambda tx, w: w.plutus_bytes == "canonical" and any(n[0] == "bytes" and len(n[1]) > 64 for d in inline_datums(tx) for n in walk_pdata(d)),
      lambda tx, w: (with_inline_datums(tx, lambda d: map_pdata(d, lambda n: ["bytes", n[1][:64]] if n[0] == "bytes" and len(n[1]) > 64 else n)), w)),
+    ("inline datum with a definite-length non-empty list (or field list) that is not directly inside an indefinite list", KF_DEFLIST,
+     lambda tx, w: w.plutus_lists == "definite" and any((n[0] == "list" and n[1]) or (n[0] == "constr" and n[2])
+                                                        for d in inline_datums(tx) for n in walk_pdata(d)),
+     lambda tx, w: (tx, with_lists(w, "canonical"))),
     ("inline datum that is the empty list (80)", KF_EMPTYLIST,
      lambda tx, w: w.plutus_lists != "indefinite" and any(_empty_list(d) for d in inline_datums(tx)),
      lambda tx, w: (with_inline_datums(tx, lambda d: ["int", 0] if _empty_list(d) else d), w)),
@@ -366,6 +377,12 @@ def supported_wires(rng, tx, k=3):
             if style != "mixed":
                 w.sets[site] = style == "tagged"
         ws.append(w)
+    # framing of lists inside inline datums: the ledger's own (non-empty indefinite), all definite, and definite lists
+    # nested directly inside indefinite ones (each is a legal wire form of the same datum with its own body bytes / id)
+    if any((n[0] == "list" and n[1]) or (n[0] == "constr" and n[2]) for d in inline_datums(tx) for n in walk_pdata(d)):
+        w = copy.deepcopy(ws[rng.randrange(len(ws))])
+        w.plutus_lists = rng.choice(["definite", f"nested:{rng.randrange(2**32)}", f"nested:{rng.randrange(2**32)}"])
+        ws.append(w)
     return ws
 
 
@@ -373,10 +390,6 @@ def examine_variants(rng, tx, wire):
     """(class, tx', wire') outside the property's list of supported forms"""
     out = []
     datums = inline_datums(tx)
-    if any(n[0] in ("list", "constr") and n[-1] for d in datums for n in walk_pdata(d)):
-        w = copy.deepcopy(wire)
-        w.plutus_lists = "definite"
-        out.append(("plutus-lists-definite", tx, w))
     if any((n[0] == "list" and not n[1]) or (n[0] == "constr" and not n[2]) for d in datums for n in walk_pdata(d)):
         w = copy.deepcopy(wire)
         w.plutus_lists = "indefinite"
@@ -536,7 +549,7 @@ def run(ctx):
     ctx.assumptions = [
         "the body slice is computed twice (ref/conway.py offsets, ledger_ref.tx_parts) and must agree; the id oracle is hashlib.blake2b",
         "supported wire forms = the property's list; Plutus data inside them uses the ledger's own framing (C18 reference); "
-        "definite non-empty Plutus lists, unchunked long byte strings, map key orders other than ascending / length-first, foreign "
+        "unchunked long byte strings, map key orders other than ascending / length-first, foreign "
         "body keys, duplicate and empty sets are examined and reported but not judged",
         "a recorded defect is matched by counterfactual re-evaluation (neutralise the trait: passes; re-enable it alone: fails)",
         "a C-extension failure is booked on KF-C03-cext-backend only when the pure back end behaves differently on the same "
